@@ -1,28 +1,29 @@
 import Gaftools.Spec.Stat
+import Gaftools.Proofs.StatLemmas
 /-!
 # C19 — stat reports numbers that match their definitions
 -/
 namespace Gaftools.C19
-open Gaftools.Gaf Gaftools.Stat Gaftools.Spec.Stat
+open Gaftools.Gaf Gaftools.Stat Gaftools.Spec.Stat Gaftools.Proofs.Stat
 
 theorem isSecondary_iff (r : Rec) : isSecondary r = !isPrimaryRec r := by
-  sorry
+  exact isSecondary_eq r
 
 /-- total = number of records; secondary = not primary or MAPQ 0; total = primary + secondary -/
 theorem stat_counts (c : Bool) (recs : List Rec) :
     (run c recs).total = total recs ∧ (run c recs).secondary = secondary recs ∧
     (run c recs).primary = primary recs ∧ total recs = primary recs + secondary recs := by
-  sorry
+  exact ⟨run_total c recs, run_secondary c recs, run_primary c recs, total_split recs⟩
 
 /-- reads and aligned bases are taken over primary records only -/
 theorem stat_reads_bases (c : Bool) (recs : List Rec) :
     (run c recs).reads.map (·.name) = readNames recs ∧ (run c recs).bases = bases recs := by
-  sorry
+  exact ⟨run_names c recs, run_bases c recs⟩
 
 /-- best identity / best map ratio of a read = maximum over its primary records -/
 theorem stat_best (c : Bool) (recs : List Rec) (a : ReadAgg) (h : a ∈ (run c recs).reads) :
     a.bestId = bestId recs a.name ∧ a.bestRatio = bestRatio recs a.name := by
-  sorry
+  exact run_best c recs a h
 
 /-- with --cigar: events = number of runs of each operation, large = runs of length ≥ 50, perfect = one-run CIGARs -/
 theorem stat_cigar (recs : List Rec) :
@@ -30,7 +31,7 @@ theorem stat_cigar (recs : List Rec) :
     s.del = events 'D' recs ∧ s.ins = events 'I' recs ∧ s.x = events 'X' recs ∧ s.m = events '=' recs ∧
     s.delL = large 'D' recs ∧ s.insL = large 'I' recs ∧ s.xL = large 'X' recs ∧ s.mL = large '=' recs ∧
     s.perfect = perfect recs := by
-  sorry
+  exact run_cig_true recs
 
 /-- the report is invariant under any reordering of the records: counts, the read set with its best values, and
     therefore both averages (exact arithmetic) -/
@@ -40,7 +41,17 @@ theorem stat_perm (c : Bool) (r₁ r₂ : List Rec) (hp : r₁.Perm r₂) :
     (run c r₁).mapqSum = (run c r₂).mapqSum ∧ (run c r₁).cig = (run c r₂).cig ∧
     (run c r₁).reads.Perm (run c r₂).reads ∧
     avgBestId (run c r₁) = avgBestId (run c r₂) ∧ avgBestRatio (run c r₁) = avgBestRatio (run c r₂) := by
-  sorry
+  have hr := reads_perm c hp
+  refine ⟨?_, ?_, ?_, ?_, ?_, cig_perm c hp, hr, ?_, ?_⟩
+  · rw [run_total, run_total]; exact hp.length_eq
+  · rw [run_primary, run_primary]; exact (primaries_perm hp).length_eq
+  · rw [run_secondary, run_secondary]; exact (hp.filter _).length_eq
+  · rw [run_bases, run_bases]; exact ((primaries_perm hp).map _).sum_nat
+  · rw [run_mapqSum, run_mapqSum]; exact ((primaries_perm hp).map _).sum_nat
+  · unfold avgBestId
+    rw [sumRat_perm (hr.map _), hr.length_eq]
+  · unfold avgBestRatio
+    rw [sumRat_perm (hr.map _), hr.length_eq]
 
 /-! non-vacuity -/
 def mk (q : String) (mapq : Nat) (prim : Bool) (nm bl : Nat) (cg : String) : Rec :=
